@@ -55,6 +55,15 @@ CLAIMS = {
             "chunk nonce = archive nonce || big-endian index, chunk/tag/block size constants used by the position maps.",
             CONTRACT_NOTE + "Not decided here: an independent decoder of real AES/brotli bytes, bincode header/footer layout, HKDF info strings, "
             "GCM split invariance (thorough-tier harness if present)."),
+    "C07": ("§5 C07",
+            "Solver-decided over model rand/x25519/HKDF primitives: the symmetric key and archive nonce of every configuration are the "
+            "generator output for OS entropy drawn for that configuration (never a constant or a fixed seed; distinct entropy gives "
+            "distinct keys); the header carries the public key of an ephemeral scalar from fresh OS entropy; one wrapped key per recipient, "
+            "computed as AES-GCM(HKDF-SHA256(X25519(eph, recipient), 'KEY DERIVATION'), 'ECIES NONCE0'); unwrap returns a key only for an "
+            "entry whose tag verifies; candidate private keys are tried in turn and position does not matter; every byte the encryption "
+            "writer forwards is plaintext XOR keystream of (key, nonce || BE32(chunk index)).",
+            CONTRACT_NOTE + "OS entropy is a ghost symbolic array; the generator / DH / KDF are models that keep only *which inputs reach which "
+            "primitive*. Not decided: statistical freshness, absence of plaintext under real AES, cross-process runs."),
     "C08": ("§5 C08",
             "Solver-decided panic-freedom (overflow checks on) of the length/offset/index arithmetic fed by untrusted bytes, for ALL 64-bit "
             "values: encryption seek on any inner length and offset, chunk load on any remaining length, raw seek, footer location in both "
